@@ -114,7 +114,7 @@ func runOnce(job *Job, ch vs.Chooser, trace bool) (*vs.Result, *Outcome) {
 		out, res = c14Run(job.C14, cc, trace)
 	case "C14ctl":
 		out, res = c14CtlRun(job.C14Ctl, cc, trace)
-	case "C01conc", "C06conc", "C12conc":
+	case "C01conc", "C06conc", "C12conc", "C17conc":
 		out, res = c01Run(job.C01, cc, trace)
 	default:
 		return &vs.Result{Fatal: "unknown harness " + job.Harness}, nil
